@@ -202,6 +202,8 @@ def run(ctx):
             hs = sorted(set(helpers_in(c.get("tree"), [])))
             if c.get("entry", "fn") not in ("fn", "fnx"):
                 key = "entry-point-rule-differs-from-reference"
+            elif c.get("shadows") or c.get("lexical") or c.get("at_load"):
+                key = "eval-script-scope-differs-from-reference"      # the script's own declarations are in play
             elif odd_leaf(c.get("tree")):
                 key = "eval-result-check-differs-from-reference"      # a non-string / non-ASCII result is in play
             else:
